@@ -69,6 +69,7 @@ func c04DecodedField(r *Run, fn *ssa.Function, keyInto, keyField string, base ss
 		r.Fail(keyInto, r.Where(um), fmt.Sprintf("arg %d of %s = %s (expected a local %s, a local of a type with the same members and tls tags, or the %s field of the result): %s is not decoded like %s, %s", argi, CalleeOf(um), got, typ, field, TypeName(lt), typ, why))
 		return
 	}
+	r.Assume("tls.Unmarshal reads a value by its structure only (kinds, member types and order, tls tags): two types of identical underlying type are decoded alike, the name of the outermost type plays no part")
 	r.Pass(keyInto, r.Where(um), fmt.Sprintf("arg %d of %s = %s: a separate local of type %s, whose underlying type (members, order, tls tags) is identical to that of %s — the decoder reads both the same", argi, CalleeOf(um), got, TypeName(lt), typ))
 	// nothing but the decoder writes the local once the decoder has run
 	for _, st := range storesInto(fn, x) {
